@@ -2,3 +2,4 @@
 ; uninterpreted abstraction; every (assert ...) here is an axiom and is listed in the evidence.
 (declare-fun pkgpath (Int) Str)        ; import path of a *types.Package
 (declare-fun docContains (Int Str) Bool) ; asthelper.DocContains(file, s) as a function of the file and the string
+(declare-fun rt (Iface) Int)             ; run-time value (0 = nil) of an ssa.Value in the execution under consideration
